@@ -152,7 +152,10 @@ func raceShare(r *Rng) (*raceShared, error) {
 	for i, d := 0, Pick(r, []int{0, 1, 1, 2, 3, 4, 5, 6}); i < d; i++ {
 		blocks = append(blocks, Block{Facts: []Pred{{Name: "p", Terms: []Term{S(fmt.Sprintf("extra%d", i))}}}})
 	}
-	tok, err := buildToken(blocks, r.Fork()) // goes through Serialize/Unmarshal: protobuf-allocated byte slices
+	// half of the shared tokens are used as Build/Append returned them (their in-memory block
+	// lists have spare capacity that a token coming out of Unmarshal does not have)
+	inMemory := r.Chance(1, 2)
+	tok, err := buildTokenMem(blocks, r.Fork(), inMemory) // goes through Serialize/Unmarshal: protobuf-allocated byte slices
 	if err != nil {
 		return nil, err
 	}
